@@ -64,8 +64,16 @@ theorem applyWEv_fields (ans : FdtAns) (f : FdtRecv σ) (e : WEv) :
     (f.applyWEv ans e).check = f.check ∧ (f.applyWEv ans e).fdtId = f.fdtId ∧
     (f.applyWEv ans e).obj = f.obj ∧ (f.applyWEv ans e).hasMeta = f.hasMeta ∧
     (f.st ≠ .expired → (f.applyWEv ans e).st ≠ .expired) := by
-  cases e <;> simp [FdtRecv.applyWEv]
-  · cases ans <;> simp
+  cases e with
+  | complete =>
+    simp only [FdtRecv.applyWEv]
+    split
+    · exact ⟨rfl, rfl, rfl, rfl, rfl, rfl, fun h => h⟩
+    · cases ans <;> simp
+  | write sbn len =>
+    simp only [FdtRecv.applyWEv]
+    split <;> simp
+  | _ => simp [FdtRecv.applyWEv]
 
 theorem applyWEvs_fields (ans : FdtAns) (f : FdtRecv σ) (evs : List WEv) :
     (f.applyWEvs ans evs).offset = f.offset ∧ (f.applyWEvs ans evs).late = f.late ∧
